@@ -161,3 +161,48 @@ def c03_body(mode: str) -> str:
         return mode
     finally:
         C03_DONE[inv.invocation_id] = C03_DONE.get(inv.invocation_id, 0) + 1
+
+
+# ---- C11: bodies for the stop scenarios --------------------------------------------------------
+C11_RELEASE = __import__("threading").Event()
+
+
+def c11_body(script: str) -> str:
+    from pynenc import context
+    from pynenc.exceptions import RetryError
+
+    app = context.get_current_app()
+    inv = context.get_dist_invocation_context(app.app_id)
+    x = 1          # a few scheduler-visible lines inside the body
+    x += 1
+    if script == "fail":
+        raise ProgError("boom")
+    if script == "retry":
+        raise RetryError("again")
+    return script
+
+
+def c11_slow(script: str = "ok", seconds: float = 0.0) -> str:
+    import time
+
+    from pynenc import context
+    from pynenc.exceptions import RetryError
+
+    app = context.get_current_app()
+    inv = context.get_dist_invocation_context(app.app_id)
+    time.sleep(seconds)
+    if script == "fail":
+        raise ProgError("boom")
+    if script == "retry" and inv.num_retries == 0:
+        raise RetryError("again")
+    return script
+
+
+def c11_parent() -> str:
+    """waits for a sub-task; with one slot and the runner stopping, nobody runs the child"""
+    from pynenc import context
+    from pynenc.identifiers.task_id import TaskId
+
+    app = context.get_current_app()
+    child = app.get_task(TaskId(__name__, "c11_slow"))
+    return child("ok", 0.4).result
